@@ -6,13 +6,13 @@ from ..core import R
 
 ID = "C26"
 LEVEL = "exploration"
-CASE_TIMEOUT = 150.0
+CASE_TIMEOUT = 60.0
 RULE = ("Cases = (integrand with a closed-form integral, HISTORY of 2..7 quad calls). Integrands (built from the repo's "
         "mp functions, all parameters exact dyadic numbers): sums of 1..3 terms c * poly(x) * exp(a x) * {1, sin, cos}(b x + "
         "phi) (pure polynomials, c exp(a x), sin/cos, poly*exp, exp*sin ... as special cases), c/((x-m)^2+w^2) with the "
         "poles at distance >= L/4 from the path, Gaussians c x^k exp(-alpha (x-m)^2); in 2 and 3 dimensions sums of products "
         "of such factors (separable and non-separable sums) and ridge functions g(a.x + phi), g in {exp, sin, cos, u^k} "
-        "(non-separable). Oscillation/variation is moderate: (|a|+|b|) * L <= 20 on finite paths, |b| <= 4|a| on infinite "
+        "(non-separable). Oscillation/variation is moderate: (|a|+|b|) * L <= 20 on finite paths, |b| <= 2|a| on infinite "
         "ones, sqrt(alpha) * L <= 8. Paths: finite real intervals (small dyadic, thirds/sevenths/tenths rounded to 24..200 "
         "bits, wide up to 5000, narrow down to 2^-30, far from the origin), reversed (b < a), with interior split points "
         "(also outside [a, b]), polygonal complex paths including closed contours for the entire integrands, [u, inf], "
@@ -95,7 +95,7 @@ def _neg(n):
 
 def shards(tier):
     k = 1 if tier == "quick" else 30
-    return ([("fin", 34 * k)] * 6 + [("inf", 22 * k)] * 3 + [("cpath", 26 * k)] * 2 + [("nd", 9 * k)] * 5)
+    return ([("fin", 220 * k)] * 5 + [("inf", 90 * k)] * 4 + [("cpath", 130 * k)] * 2 + [("nd", 70 * k)] * 5)
 
 
 def _dy(d, maxnum, maxshift, nonzero=False):
@@ -145,7 +145,7 @@ def _poly(d, maxdeg):
     return cs
 
 
-def _pet(d, L, X, maxdeg=8, kinds=None, decay=0, theta_max=160):
+def _pet(d, L, X, maxdeg=8, kinds=None, decay=0, theta_max=160, slow=True, xcap=Fraction(64, 20)):
     """c * poly(x) * exp(a x) * trig(b x + ph).  L = hull width of the path, X = max |point| (Fractions).
     decay = -1 / +1: a must be negative / positive (infinite paths), its size is free."""
     kind = d.weighted(kinds or [(4, "poly"), (3, "exp"), (3, "trig"), (3, "polyexp"), (3, "exptrig"), (1, "all")])
@@ -157,17 +157,17 @@ def _pet(d, L, X, maxdeg=8, kinds=None, decay=0, theta_max=160):
     else:
         at["poly"] = [[1, 0]]
     if decay:
-        a = _N(d.int(1, 64), -d.int(0, 4))
+        a = _N(d.int(1, 64), -d.int(0, 4)) if slow else _N(d.int(4, 64), -d.int(0, 2))
         at["a"] = a if decay > 0 else _neg(a)
         if kind in ("exptrig", "all"):
             at["trig"] = d.choice(["sin", "cos"])
-            ratio = Fraction(d.int(1, 32), 8)                    # |b| <= 4 |a|
+            ratio = Fraction(d.int(1, 16), 8)                    # |b| <= 2 |a|
             b = _floor_dy(_fr(a) * ratio)
             at["b"] = b if d.bool() else _neg(b)
             at["ph"] = _dy(d, 32, 3)
         return at, kind
     lim = Fraction(theta_max, 8)
-    unit = min(1 / L, Fraction(64, 20) / X) if X else 1 / L     # |a| X <= 64 keeps exp(a x) well conditioned
+    unit = min(1 / L, xcap / X) if X else 1 / L     # |a| X <= 64 keeps exp(a x) well conditioned
     ta = tb = 0
     if kind in ("exp", "polyexp", "exptrig", "all"):
         ta = d.int(1, theta_max - (8 if kind in ("exptrig", "all") else 0))
@@ -199,8 +199,8 @@ def _gauss(d, u, v):
     return {"t": "gauss", "k": d.int(0, 4), "al": al, "m": [0, 0]}
 
 
-def _gauss_inf(d):
-    al = _N(d.int(1, 32), -d.int(0, 4))
+def _gauss_inf(d, slow=True):
+    al = _N(d.int(1, 32), -d.int(0, 4)) if slow else _N(d.int(4, 64), -d.int(0, 3))
     if d.bool():
         # |m| sqrt(al) <= 4
         lim = Fraction(4) / (Fraction(_isqrt_ceil(_fr(al))))
@@ -263,7 +263,7 @@ def _rule_of(api):
     return "gl" if api in ("quad:gl", "quadgl", "cls:gl") else "ts"
 
 
-def _history(d, paths, cap, nmax, new_path, rule=None, allow_cls=True):
+def _history(d, paths, cap, nmax, new_path, rule=None, allow_cls=True, strict=False):
     """paths: list of path records {"pts": [...per dimension...], "of": None | [kind, index]}; extended in place.
     returns the list of steps"""
     main_rule = rule or d.choice(["ts", "gl"])
@@ -284,7 +284,7 @@ def _history(d, paths, cap, nmax, new_path, rule=None, allow_cls=True):
                 pi = len(paths) - 1
             else:
                 j = d.int(0, len(paths) - 1)
-                q = _derive(d, paths[j]["pts"], k)
+                q = _derive(d, paths[j]["pts"], k, paths[0].get("hint"))
                 if q is None:
                     pi = j
                 else:
@@ -293,7 +293,7 @@ def _history(d, paths, cap, nmax, new_path, rule=None, allow_cls=True):
             p = _next_prec(d, precs, cap)
             if p not in precs:
                 precs.append(p)
-        r = main_rule if d.int(0, 3) else d.choice(["ts", "gl"])
+        r = main_rule if (strict or d.int(0, 3)) else d.choice(["ts", "gl"])
         api = d.choice(APIS_TS if r == "ts" else APIS_GL)
         if allow_cls and p <= 100 and d.int(0, 11) == 0:
             api = "cls:" + r
@@ -301,7 +301,7 @@ def _history(d, paths, cap, nmax, new_path, rule=None, allow_cls=True):
     return steps
 
 
-def _derive(d, pts, kind):
+def _derive(d, pts, kind, hint=None):
     """reversed or split version of a path (list of point lists, one per dimension)"""
     out = [list(q) for q in pts]
     if kind == "rev":
@@ -326,12 +326,16 @@ def _derive(d, pts, kind):
         return None
     j = d.int(0, len(q) - 2)
     a, b = q[j], q[j + 1]
+    ell = _fr(hint) if hint else Fraction(1)
     if a[0] == "inf" and b[0] == "inf":
-        c = _dy(d, 32, 2)
+        # split point within 4 widths of the origin (the peaks are within 4 widths of it as well)
+        c = _round(ell * Fraction(d.int(-32, 32), 8), 12)
     elif a[0] == "inf" or b[0] == "inf":
         f0 = _fr(a[1]) if b[0] == "inf" else _fr(b[1])
         sg = b[1] if b[0] == "inf" else a[1]
-        c = _of_fr(f0 + sg * Fraction(d.int(1, 64), 8))
+        c = _round(f0 + sg * ell * Fraction(d.int(1, 64), 8), 20)
+        if c == (a[1] if b[0] == "inf" else b[1]):
+            return None
     else:
         fa, fb = _fr(a[1]), _fr(b[1])
         t = Fraction(d.int(1, 15), 16)
@@ -396,23 +400,31 @@ def _gen_fin(d):
 
 def _gen_inf(d):
     shape = d.weighted([(5, "half+"), (3, "half-"), (4, "full")])
+    # Gauss-Legendre converges slowly after the map of an infinite interval to [-1, 1] when the decay is slow
+    # (documented: "handles infinite integration intervals worse"): rates >= 1 (alpha >= 1/2) and <= 128 bits there
+    rule = d.weighted([(3, "ts"), (2, "gl")])
+    slow = rule == "ts"
     terms, kinds = [], []
     if shape == "full":
         pts = [["inf", -1], ["inf", 1]]
+        wmin = None
         for _ in range(d.weighted([(5, 1), (2, 2)])):
-            terms.append({"c": _coef(d), "fac": [_gauss_inf(d)]})
+            terms.append({"c": _coef(d), "fac": [_gauss_inf(d, slow)]})
             kinds.append("gauss")
+            w = 1 / _isqrt_ceil(_fr(terms[-1]["fac"][0]["al"]))
+            wmin = w if wmin is None else min(wmin, w)
+        hint = _round(wmin, 8)
     else:
         sg = 1 if shape == "half+" else -1
         fam = d.weighted([(6, "pet"), (3, "gauss")])
         amin = None
         for _ in range(d.weighted([(5, 1), (3, 2), (1, 3)])):
             if fam == "pet" or (terms and d.bool()):
-                at, k = _pet(d, None, None, maxdeg=5, decay=-sg)
+                at, k = _pet(d, None, None, maxdeg=5, decay=-sg, slow=slow)
                 aa = abs(_fr(at["a"]))
                 amin = aa if amin is None else max(amin, aa)
             else:
-                at, k = _gauss_inf(d), "gauss"
+                at, k = _gauss_inf(d, slow), "gauss"
                 aa = _isqrt_ceil(_fr(at["al"]))
                 amin = aa if amin is None else max(amin, aa)
             terms.append({"c": _coef(d), "fac": [at]})
@@ -420,13 +432,14 @@ def _gen_inf(d):
         # finite endpoint: |u| * (largest decay rate) <= 8
         uu = _round(Fraction(d.int(-64, 64), 8) / amin, 12) if d.int(0, 2) else [0, 0]
         pts = [["r", uu], ["inf", 1]] if sg > 0 else [["inf", -1], ["r", uu]]
+        hint = _round(1 / amin, 8)
     if d.int(0, 4) == 0:
         pts = list(reversed(pts))
-    paths = [{"pts": [pts], "of": None}]
-    cap = d.weighted([(10, 128), (3, 256), (1, 400)])
-    steps = _history(d, paths, cap, 5 if cap <= 128 else 3, None)
+    paths = [{"pts": [pts], "of": None, "hint": hint}]
+    cap = d.weighted([(10, 128), (3, 256), (1, 400)]) if rule == "ts" else d.weighted([(3, 64), (2, 128)])
+    steps = _history(d, paths, cap, 5 if cap <= 128 else 3, None, rule=rule, strict=True)
     return {"dim": 1, "terms": terms, "paths": paths, "steps": steps,
-            "cls": "1d:%s:%s" % (shape, "+".join(sorted(set(kinds))))}
+            "cls": "1d:%s:%s:%s" % (shape, rule, "+".join(sorted(set(kinds))))}
 
 
 def _gen_cpath(d):
@@ -461,48 +474,82 @@ def _gen_cpath(d):
             "cls": "1d:cpath%s:%s" % (":closed" if closed else "", "+".join(sorted(set(kinds))))}
 
 
+def _small_interval(d):
+    """box side for the multidimensional cases: endpoints in [-2, 2] (quad's stopping criterion is an ABSOLUTE
+    eps/8 at every nesting level, so integrands of large magnitude run every inner integral to the maximal degree;
+    that is a cost issue only, but the nested cost is cubic)"""
+    if d.bool():
+        u = Fraction(d.int(-16, 8), 8)
+        v = u + Fraction(d.int(1, 8), 8)
+        un, vn = _of_fr(u), _of_fr(v)
+        k = "unit"
+    else:
+        den = d.choice([3, 5, 7, 10])
+        u = Fraction(d.int(-2 * den, den), den)
+        v = u + Fraction(d.int(1, den), den)
+        bits = d.choice([24, 53, 64, 113])
+        un, vn = _round(u, bits), _round(v, bits)
+        k = "rational"
+    if d.int(0, 3) == 0:
+        un, vn = vn, un
+    return un, vn, k
+
+
+def _small_coef(d):
+    return [d.choice([1, 1, -1]), 0] if d.bool() else _dy(d, 12, 2, nonzero=True)
+
+
 def _gen_nd(d):
     dim = d.weighted([(7, 2), (3, 3)])
-    rule = d.weighted([(1, "ts"), (2, "gl")]) if dim == 2 else "gl"
+    rule = d.weighted([(1, "ts"), (2, "gl")]) if dim == 2 else d.weighted([(1, "ts"), (6, "gl")])
     ivs = []
     infdim = d.int(0, dim - 1) if (dim == 2 and d.int(0, 5) == 0) else None
     for i in range(dim):
         if i == infdim:
-            uu = _dy(d, 16, 2)
-            ivs.append((uu, None, "inf"))
+            ivs.append((_N(d.int(0, 16), -3), None, "inf"))      # [u, inf] with 0 <= u <= 2: magnitude stays O(1)
         else:
-            ivs.append(_interval(d, allow=("unit", "rational")))
+            ivs.append(_small_interval(d))
     terms, kinds = [], []
     fam = d.weighted([(4, "prod"), (4, "ridge"), (3, "mixed")]) if infdim is None else "prod"
     nterms = d.weighted([(3, 1), (4, 2), (2, 3)]) if dim == 2 else d.weighted([(3, 1), (2, 2)])
-    tmax = 64 if dim == 2 else 32
+    tmax = 48 if dim == 2 else 24
     for ti in range(nterms):
         if fam == "ridge" or (fam == "mixed" and ti == 0):
             g = d.choice(["exp", "sin", "cos", "pow"])
             aa = []
+            reach = Fraction(0)
             for (u, v, _) in ivs:
                 fu, fv = _fr(u), _fr(v)
                 L, X = abs(fv - fu), max(abs(fu), abs(fv), Fraction(1, 8))
-                unit = min(1 / L, 4 / X)
-                a = _floor_dy(Fraction(d.int(2, tmax), 8) * unit / dim)
+                if g == "pow":
+                    a = _N(d.int(1, 8), -3)
+                else:
+                    a = _floor_dy(Fraction(d.int(2, tmax), 8) * min(1 / L, 4 / X) / dim)
+                reach += _fr(a) * X
                 aa.append(a if d.bool() else _neg(a))
-            t = {"c": _coef(d), "ridge": g, "a": aa, "ph": _dy(d, 16, 2)}
+            t = {"c": _small_coef(d), "ridge": g, "a": aa, "ph": _dy(d, 16, 3)}
             if g == "pow":
-                t["k"] = d.int(1, 5)
-                t["a"] = [_N(d.int(1, 8) * d.choice([1, -1]), -d.int(0, 2)) for _ in ivs]
+                t["k"] = d.int(1, 4)
+            elif g == "exp":
+                # keep exp(a.x + ph) <= e^2 on the box
+                t["ph"] = _round(-reach + Fraction(d.int(-16, 16), 8), 10)
             terms.append(t)
             kinds.append("ridge-" + g)
         else:
             fac = []
             for (u, v, icls) in ivs:
                 if icls == "inf":
-                    at, k = _pet(d, None, None, maxdeg=2, decay=-1)
+                    at, k = _pet(d, None, None, maxdeg=2, decay=-1, slow=False)
                 else:
                     fu, fv = _fr(u), _fr(v)
-                    at, k = _pet(d, abs(fv - fu), max(abs(fu), abs(fv)), maxdeg=3, theta_max=tmax,
-                                 kinds=[(5, "poly"), (2, "exp"), (2, "trig"), (1, "polyexp"), (1, "exptrig")])
+                    at, k = _pet(d, abs(fv - fu), max(abs(fu), abs(fv)), maxdeg=3 if dim == 2 else 2, theta_max=tmax,
+                                 kinds=[(5, "poly"), (2, "exp"), (2, "trig"), (1, "polyexp"), (1, "exptrig")],
+                                 xcap=Fraction(1, 2))
+                    at["poly"] = [_N(c[0] % 5 - 2 if abs(c[0]) > 4 else c[0], c[1]) for c in at["poly"]]
+                    if at["poly"][-1][0] == 0:
+                        at["poly"][-1] = [1, 0]
                 fac.append(at)
-            terms.append({"c": _coef(d), "fac": fac})
+            terms.append({"c": _small_coef(d), "fac": fac})
             kinds.append("prod")
     pts = []
     for (u, v, icls) in ivs:
@@ -514,11 +561,8 @@ def _gen_nd(d):
     if dim == 2:
         cap = d.weighted([(8, 64), (3, 110)]) if rule == "ts" else d.weighted([(6, 64), (4, 128), (1, 200)])
     else:
-        cap = d.weighted([(6, 45), (2, 64)])
-    steps = _history(d, paths, cap, 3 if dim == 2 else 2, None, rule=rule, allow_cls=False)
-    for s in steps:                       # one rule per multidimensional case: cost control
-        if _rule_of(s["api"]) != rule:
-            s["api"] = "quadts" if rule == "ts" else "quadgl"
+        cap = d.weighted([(6, 45), (2, 64)]) if rule == "gl" else 40
+    steps = _history(d, paths, cap, 3 if dim == 2 else 2, None, rule=rule, allow_cls=False, strict=True)
     return {"dim": dim, "terms": terms, "paths": paths, "steps": steps,
             "cls": "%dd:%s%s:%s" % (dim, rule, ":inf" if infdim is not None else "", "+".join(sorted(set(kinds))))}
 
@@ -581,7 +625,7 @@ def _integrand_mp(mp, case):
             ph = _to_mp(mp, t["ph"])
             g = t["ridge"]
             k = t.get("k", 0)
-            fn = {"exp": mp.exp, "sin": mp.sin, "cos": mp.cos, "pow": (lambda u: u ** k)}[g]
+            fn = {"exp": mp.exp, "sin": mp.sin, "cos": mp.cos, "pow": (lambda u, k=k: u ** k)}[g]
             comp.append(("ridge", c, aa, ph, fn))
         else:
             comp.append(("prod", c, [_atom_mp(mp, at) for at in t["fac"]]))
@@ -1076,7 +1120,19 @@ def check_case(case):
             mp.prec = p
             f = _integrand_mp(mp, case)
             mpts = [[_point_mp(mp, pt, st["py"]) for pt in q] for q in pts]
-            out = _call(mp, mpmath, api, f, mpts, st["err"])
+            try:
+                out = _call(mp, mpmath, api, f, mpts, st["err"])
+            except ZeroDivisionError as e:
+                import traceback
+                if not any(fs.name == "estimate_error" for fs in traceback.extract_tb(e.__traceback__)):
+                    raise
+                # the integrand has no singularity: the division by zero is the error estimator's own
+                # (log10|I_k - I_(k-2)| == 0 when two step sums differ by exactly 1)
+                mp.prec = p
+                res.bad("zerodiv:estimate_error", "%s(f, %s) at prec %d, f = %s raised ZeroDivisionError inside "
+                        "QuadratureRule.estimate_error (closed form %s)" % (api, _show_pts(pts), p, _show_terms(case),
+                                                                           mr.nstr(I2, 20)))
+                continue
             if mp.prec != p:
                 res.bad("prec-leak:%s" % rule, "quad changed mp.prec from %d to %d" % (p, mp.prec))
                 mp.prec = p
